@@ -57,6 +57,8 @@ fn run_one(v: &Value, out: &mut Vec<String>) {
     sim.kill_latency = v["kill_latency"].as_u64().unwrap_or(0);
     sim.overshoot = v["overshoot"].as_u64().unwrap_or(0);
     sim.clock_step = v["clock_step"].as_u64().unwrap_or(0);
+    sim.sleep_slice = v["sleep_slice"].as_u64().unwrap_or(0);
+    sim.sleep_eintr_left = v["sleep_eintr_max"].as_u64().unwrap_or(0) as u32;
     if let Some(l) = v["eintr_at"].as_array() {
         sim.eintr_at = l.iter().map(|x| x.as_u64().unwrap()).collect();
     }
